@@ -163,6 +163,7 @@ func genRCases(r *hx.Rng, n int, emit func(string)) {
 
 // ---------------------------------------------------------------- B: box trees decoded on both paths
 type node struct {
+	raw     []byte // a pre-rendered leaf (table boxes of the G stream)
 	name    string
 	kids    []*node
 	payload int
@@ -186,6 +187,10 @@ func genNode(r *hx.Rng, depth int) *node {
 
 // encodeNode returns bytes and records the offsets of all size fields
 func encodeNode(n *node, base int, sizeOffs *[]int) []byte {
+	if n.raw != nil {
+		*sizeOffs = append(*sizeOffs, base)
+		return n.raw
+	}
 	var body []byte
 	hl := 8
 	if n.large {
@@ -258,6 +263,96 @@ func genBInputs(r *hx.Rng, n int) [][]byte {
 	for i := 0; i < n; i++ {
 		var offs []int
 		t := genNode(r, 3)
+		d := encodeNode(t, 0, &offs)
+		out = append(out, mutateBox(r, d, offs))
+	}
+	return out
+}
+
+// ---------------------------------------------------------------- G: box trees whose leaves include the table boxes
+// (coq/c04/C04TreeModel.v: the prologue models composed with the container loops)
+func tableLeaf(r *hx.Rng) []byte {
+	n := r.Pick(0, 1, 2, 3, 5)
+	ent := func(k int, v uint32) []byte {
+		var e []byte
+		for i := 0; i < n*k; i++ {
+			e = cat(e, u32(v))
+		}
+		return e
+	}
+	var b []byte
+	switch r.Intn(14) {
+	case 0:
+		b = fullbox("stts", 0, 0, u32(uint32(n)), ent(2, 1))
+	case 1:
+		b = fullbox("ctts", byte(r.Intn(2)), 0, u32(uint32(n)), ent(2, 1))
+	case 2:
+		b = fullbox("stsc", 0, 0, u32(uint32(n)), ent(3, 1))
+	case 3:
+		if r.Bool() {
+			b = fullbox("stsz", 0, 0, u32(0), u32(uint32(n)), ent(1, 4))
+		} else {
+			b = fullbox("stsz", 0, 0, u32(7), u32(uint32(n)))
+		}
+	case 4:
+		b = fullbox("stco", 0, 0, u32(uint32(n)), ent(1, 9))
+	case 5:
+		b = fullbox("co64", 0, 0, u32(uint32(n)), ent(2, 9))
+	case 6:
+		b = fullbox("stss", 0, 0, u32(uint32(n)), ent(1, 1))
+	case 7:
+		b = trun(r.Bool(), 100)
+	case 8:
+		b = tfraX(1, make([]uint32, n), byte(r.Intn(2)), byte(r.Intn(64)))
+	case 9:
+		b = fullbox("saio", byte(r.Intn(2)*0), 0, u32(uint32(n)), ent(1, 8))
+	case 10:
+		if r.Bool() {
+			b = fullbox("elst", 0, 0, u32(uint32(n)), ent(3, 1))
+		} else {
+			b = fullbox("elst", 1, 0, u32(uint32(n)), ent(5, 1))
+		}
+	case 11:
+		b = fullbox("sbgp", 0, 0, []byte("roll"), u32(uint32(n)), ent(2, 1))
+	case 12:
+		b = fullbox("saiz", 0, 0, []byte{0}, u32(uint32(n)), make([]byte, n))
+	case 13:
+		b = fullbox("sdtp", 0, 0, make([]byte, n))
+	}
+	switch r.Intn(8) {
+	case 0: // count / first payload word inflated or deflated
+		if len(b) >= 16 {
+			old := binary.BigEndian.Uint32(b[12:])
+			binary.BigEndian.PutUint32(b[12:], []uint32{0, old + 1, old - 1, 1024, 1025, 0x7fffffff, 0xffffffff}[r.Intn(7)])
+		}
+	case 1: // a trailing byte inside the box
+		b = append(b, 0)
+		binary.BigEndian.PutUint32(b, uint32(len(b)))
+	case 2: // 16-byte header
+		b = cat(u32(1), b[4:8], u64(uint64(len(b)+8)), b[8:])
+	}
+	return b
+}
+
+func genGNode(r *hx.Rng, depth int) *node {
+	if depth > 0 && r.Intn(3) == 0 {
+		n := &node{name: contNames[r.Intn(len(contNames))], cont: true, large: r.Intn(12) == 0}
+		for k := r.Intn(4); k > 0; k-- {
+			n.kids = append(n.kids, genGNode(r, depth-1))
+		}
+		return n
+	}
+	if r.Intn(3) > 0 {
+		return &node{raw: tableLeaf(r)}
+	}
+	return &node{name: leafNames[r.Intn(len(leafNames))], payload: r.Pick(0, 0, 1, 4, 9), large: r.Intn(8) == 0}
+}
+
+func genGInputs(r *hx.Rng, n int) [][]byte {
+	var out [][]byte
+	for i := 0; i < n; i++ {
+		var offs []int
+		t := genGNode(r, 3)
 		d := encodeNode(t, 0, &offs)
 		out = append(out, mutateBox(r, d, offs))
 	}
@@ -383,6 +478,21 @@ func cmdCorr(seed uint64, n int, exh int) {
 		for _, half := range strings.Split(res[i], "\t") {
 			if strings.HasPrefix(half, "panic") || half == "hang" || half == "overalloc" {
 				fmt.Fprintln(out, failLine("box="+half, "hex:"+hx.Hex(d), "DecodeBox/DecodeBoxSR on a mutated box tree"))
+			}
+		}
+	}
+	// G: trees with table leaves
+	gin := genGInputs(r, n)
+	gjobs := make([]job, len(gin))
+	for i, d := range gin {
+		gjobs[i] = job{kind: "B", cfg: "-", data: d}
+	}
+	gres := runJobs(gjobs, nprocs())
+	for i, d := range gin {
+		fmt.Fprintf(out, "G\tg%d\t%s\t%s\n", i, hx.Hex(d), projectB(gres[i]))
+		for _, half := range strings.Split(gres[i], "\t") {
+			if strings.HasPrefix(half, "panic") || half == "hang" || half == "overalloc" {
+				fmt.Fprintln(out, failLine("box="+half, "hex:"+hx.Hex(d), "DecodeBox/DecodeBoxSR on a box tree with table leaves"))
 			}
 		}
 	}
